@@ -291,8 +291,7 @@ pub fn cmd_merge(r: &mut Runner, t: &[&str]) -> String {
         .arg(fd)
         .arg("--threads")
         .arg(threads)
-        .arg("--tmp-dir")
-        .arg(&dir);
+        .env("TMPDIR", &dir);
     match mode {
         "max" => {
             cmd.arg("--max");
